@@ -95,7 +95,7 @@ def _build(case):
         kd = case["key"]
         alg = dns.name.Name(T.ALG_LIST[kd["alg"] % len(T.ALG_LIST)])
         key = dns.tsig.Key(dns.name.Name(G.unhexl(kd["name"])), bytes.fromhex(kd["secret"]), alg)
-        m.use_tsig(key)
+        m.use_tsig(key, other_data=bytes.fromhex(kd.get("other", "")))
     return m, key
 
 
@@ -202,6 +202,8 @@ def _run(case):
                 raise Violation("truncate", f"limit {L}: TC={tc} but first omitted section is {first_omitted_section}", f"tc:{tc}")
             if opt_configured and p.opt is None:
                 raise Violation("truncate", f"limit {L}: the configured OPT record is missing", "opt-missing")
+            if opt_configured and (p.edns, p.payload, p.ednsflags) != (mm.edns, mm.payload, mm.ednsflags):
+                raise Violation("truncate", f"limit {L}: EDNS state (version, payload, flags) {(p.edns, p.payload, hex(p.ednsflags))} differs from the configured {(mm.edns, mm.payload, hex(mm.ednsflags))}", "edns-state")
             if key is not None and not p.had_tsig:
                 raise Violation("truncate", f"limit {L}: the configured TSIG record is missing", "tsig-missing")
             if pad:
@@ -244,6 +246,10 @@ def _run(case):
             raise Violation("padding", f"block sweep: pad={blk}: padded output does not parse/validate: {type(e).__name__}: {e}", "pad-unparseable:" + type(e).__name__)
         if _flatten(p) != orig:
             raise Violation("padding", f"block sweep: pad={blk}: padded message differs from the original", "pad-content")
+        if (p.edns, p.payload, p.ednsflags) != (mm.edns, mm.payload, mm.ednsflags):
+            raise Violation("padding", f"block sweep: pad={blk}: EDNS state {(p.edns, p.payload, hex(p.ednsflags))} differs from the configured {(mm.edns, mm.payload, hex(mm.ednsflags))}", "pad-edns-state")
+        if key2 is not None and case["key"].get("other"):
+            classes.add("tsig-other-data")
         if key2 is not None:
             classes.add("block-sweep+tsig")
     # monotonicity
@@ -286,7 +292,9 @@ def cases(draw, sweep=False):
             name = [b"key", b"example", b""]
         else:
             name = [b"tsig-key-unrelated", b""]
-        key = {"name": G.hexl(name), "secret": draw(st.binary(min_size=1, max_size=32)).hex(), "alg": draw(st.integers(0, 8))}
+        key = {"name": G.hexl(name), "secret": draw(st.binary(min_size=1, max_size=32)).hex(), "alg": draw(st.integers(0, 8)),
+               # TSIG other data (e.g. the 6-octet server time of a BADTIME reply): part of the reserve
+               "other": draw(st.sampled_from([b"", b"", b"\x00\x00\x5f\x5e\x10\x00", b"x" * 17, b"y" * 5])).hex()}
     pad = draw(st.sampled_from([0, 0, 0, 1, 16, 128, 468]))
     if draw(st.booleans()):
         msg["edns"] = None if pad == 0 and draw(st.booleans()) else msg["edns"]
@@ -299,6 +307,6 @@ def parts(tier):
         Part("limits", run, strategy=cases(sweep=(tier == "thorough")),
              n={"quick": 480, "thorough": 16 * 300},
              require={"partial-inclusion": 80, "tc-set": 80, "dropped-only-additional": 20, "padded": 50,
-                      "padded+tsig": 15, "block-sweep+tsig": 100, "tsig": 50, "toobig": 80, "limit<512": 50},
+                      "padded+tsig": 15, "block-sweep+tsig": 100, "tsig-other-data": 40, "tsig": 50, "toobig": 80, "limit<512": 50},
              shards={"quick": 16, "thorough": 16}),
     ]
